@@ -165,7 +165,11 @@ def payloads_for(kind, typ, mt, served):
 
 LITS = {
     'html': ['', '', '<p>x', '\n', '<p>a</p>\n<p>b</p>\n', ' text ', '<!--c-->', '<span>i</span> ', '<br>', '<!doctype html>\n<title>t</title>\n'],
-    'svg': ['', '', '<g/>', '<rect x="1"/>', '<g><circle r="2"/></g>', '\n', '\n  ', '<text>a{b:c}</text>', '<title>t</title>'],
+    'svg': ['', '', '<g/>', '<rect x="1"/>', '<g><circle r="2"/></g>', '\n', '\n  ', '<text>a{b:c}</text>', '<title>t</title>',
+            # character data directly after an empty style element (collapsed to <style/>; holds no resource): the text that
+            # follows is NOT a stylesheet and must reach no minifier
+            '<style></style>set S = { x : 0.50 }', '<style>  </style><![CDATA[ { x : 0.50 } ]]>', '<style></style>t{u:v}<g/>',
+            'set S = { x : 0.50 }<g/>'],
     'css': ['', '', 'b{color:red}', '@media print{c{d:e}}', '/*c*/', '\n', 'e{f:g}\n'],
 }
 REAL_FOR_LIT = {'text/css': 'css', 'application/javascript': 'js', 'text/javascript': 'js', 'image/svg+xml': 'svg',
